@@ -3,7 +3,7 @@
 # VIOLATION / harness error.  usage: tools/thorough_sweep.sh [jobs]
 cd "$(dirname "$0")/.."
 JOBS=${1:-16}
-for c in C18 C04 C11 C16 C08 C17 C07 C06 C05 C03 C13 C12 C15 C01 C02 C10 C09 C20 C14; do
+for c in C06 C05 C03 C13 C12 C15 C01 C02 C10 C09 C20 C14 C04 C08 C17 C18 C11 C16 C07; do
   t0=$(date +%s)
   out=$(VERIF_REPLAY_DIR=$PWD/thorough_replays ./check $c --tier thorough --jobs $JOBS 2>&1 | grep -v "^KNOWN-FINDING" | tail -4)
   echo "$(date +%H:%M) $(( $(date +%s) - t0 ))s $(echo "$out" | tail -1)"
